@@ -12,7 +12,7 @@ META = {
                    "generation k+1 is never worse than that of generation k, for MIN and MAX, and best_solution is the "
                    "best agent ever recorded.",
     "bounds": {"quick": "helpers: 2-3 incumbents + 2-3 candidates; optimize(): 2 agents, 2 cycles",
-               "thorough": "helpers 3+3; optimize(): 3 agents x 2 cycles, 2 agents x 3 cycles"},
+               "thorough": "helpers 3+3; optimize(): + (3 agents, 1 cycle), (1 agent, 3 cycles)"},
     "outside": "that each of the ~70 elitist update rules only replaces through these helpers (H6)",
     "stubs": ["pydantic-lite", "pool model", "np.random.seed no-op"],
     "assumptions": ["finite floats as reals (costs only compared)"],
@@ -138,7 +138,7 @@ def obligations(tier):
             obs.append(Ob(f"greedy_override[{cname}]", ob_greedy_override(cname, cls), 60))
     for rule in ("greedy", "extend_trim", "pairwise", "sorted_tail_replacement"):
         for d in ("min", "max"):
-            for n, cycles in ((2, 2),) + (((3, 2), (2, 3)) if th else ()):
+            for n, cycles in ((2, 2),) + (((3, 1), (1, 3)) if th else ()):          # 6 symbolic costs = 4 683 weak orders
                 obs.append(Ob(f"optimize[{rule},n={n},cycles={cycles},{d}]", ob_optimize(rule, n, cycles, d), 900))
     obs.append(Ob("twin_vacuity", twin(), 30, expect_refuted=True))
     return obs
